@@ -3,8 +3,8 @@
    true  = after proposed_fixes/C09-mixed-depth-keys.diff (if any key is a path, every str key becomes a tuple)
    The theorems of Props.v cover both variants; only the correspondence (check_case) reads this flag.
    When the fix is applied to /repo set this to true and drop the "mixed-depth" entry of known_findings/C09.json. *)
-Definition code_is_fixed : bool := false.
+Definition code_is_fixed : bool := true.
 
 (* The "dict" branch of ModelObject.from_dict drops entries whose value is falsy (0.0):
    true = pinned code, false = after proposed_fixes/C08-dict-falsy-constant.diff (removes the filter). *)
-Definition dict_drops_zero : bool := true.
+Definition dict_drops_zero : bool := false.
